@@ -2,12 +2,12 @@ SPECIFICATION Spec
 CONSTANTS
   Contents = {"A", "B"}
   MaxOps = 3
-  Kinds = {"write", "replace"}
-  Fates = {"deliver", "drop", "dup"}
+  Kinds = {"write"}
+  Fates = {"drop"}
   Rejects = {"B"}
-  CbOps = "one"
+  CbOps = "none"
   Recheck = TRUE
   Post = "forget"
-  Record = "always"
+  Record = "accept"
   Export = TRUE
-INVARIANTS Emit
+INVARIANTS EmitHazard
